@@ -159,11 +159,9 @@ func (tt *TermTable) truthSet(c, v *Term) *bitset {
 		return c.ts
 	}
 	var b bitset
-	idx := int(v.val)
-	mod := Model{}
+	tab := tt.valueTable(c, v)
 	for i := 0; i < 256; i++ {
-		mod[idx] = uint64(i)
-		if Eval(c, mod) == 1 {
+		if tab[i] == 1 {
 			b[i>>6] |= 1 << (uint(i) & 63)
 		}
 	}
@@ -581,17 +579,34 @@ func (m *Machine) ivalDecide(c *Term) int8 {
 	return e.bv(c)
 }
 
-// valueTable: the value of single-variable term t for each value of v.
+// valueTable: the value of single-variable term t for each value of v,
+// computed bottom-up from the tables of the sub-terms (each cached).
 func (tt *TermTable) valueTable(t, v *Term) *[256]uint64 {
 	if t.tab != nil {
 		return t.tab
 	}
 	var tab [256]uint64
-	idx := int(v.val)
-	mod := Model{}
-	for i := 0; i < 256; i++ {
-		mod[idx] = uint64(i)
-		tab[i] = Eval(t, mod)
+	switch t.op {
+	case OpConst:
+		for i := range tab {
+			tab[i] = t.val
+		}
+	case OpVar:
+		for i := range tab {
+			tab[i] = uint64(i)
+		}
+	default:
+		var at [3]*[256]uint64
+		for k := 0; k < int(t.n); k++ {
+			at[k] = tt.valueTable(t.a[k], v)
+		}
+		for i := 0; i < 256; i++ {
+			var av [3]uint64
+			for k := 0; k < int(t.n); k++ {
+				av[k] = at[k][i]
+			}
+			tab[i] = evalOp(t, av)
+		}
 	}
 	t.tab = &tab
 	return t.tab
